@@ -50,7 +50,7 @@ fn update_sign(ctx: &Arc<c2pa::Context>, def: serde_json::Value, fmt: Fmt, src: 
     Ok(d.into_inner())
 }
 
-fn build(rc: &mut RunCtx, fmt: Fmt, binding: Binding, variant: u64, untrusted: bool) -> Result<Signed, String> {
+pub fn build(rc: &mut RunCtx, fmt: Fmt, binding: Binding, variant: u64, untrusted: bool) -> Result<Signed, String> {
     let overlay = sdk::binding_overlay(binding);
     let ctx = Arc::new(sdk::make_context(&overlay));
     c2pa::verif::set_random_seed(Some(hash_str(&format!("c21-{}-{}-{:?}-{variant}", rc.seed, fmt.name(), binding))));
